@@ -863,7 +863,44 @@ def _derived_from_params(fi: FunctionInfo, name: str, params: Set[str], depth: i
 
 
 # --------------------------------------------------------------------------------------------------------------------
-def state_pass(run: Run, pkg: Package, everything: bool = False) -> None:
+def state_pass(run: Run, pkg: Package, everything: bool = False, mask_forward_only: bool = False, full_for: Tuple[str, ...] = ()) -> None:
+    """mask_forward_only: the check's analysed functions are call sites spread over the whole package (C02: every caller of
+    remove_pbc, C07: every reader of positions); of the shared rules only the forwarding of the periodicity mask concerns that
+    property there - anything else found in those functions belongs to the properties that anchor them.  `full_for` names
+    functions that do get every rule (C02: remove_pbc itself)."""
+    if mask_forward_only:
+        funcs = []
+        for fq in sorted(run.functions):
+            try:
+                funcs.append(pkg.func(fq))
+            except Exception:  # noqa
+                continue
+        sub = Run(run.pid, run.level)
+        n_fw = forward_pass(sub, pkg, funcs)
+        for o in sub.obligations:
+            if o["key"].endswith(":ppp"):
+                run.ob(o["rule"], o["function"], o["key"], False, o["what"], o["detail"], witness=o["witness"], loc=o["loc"], sound=True)
+        run.extra["state_rules"] = {"functions": len(funcs), "forwardable_options": n_fw, "scope": "periodicity-mask forwarding only"}
+        if full_for:
+            keep = set(run.functions)
+            run.functions = {f for f in run.functions if f in full_for}
+            try:
+                state_pass(run, pkg)
+            finally:
+                run.functions = keep | run.functions
+        return
+    # the shared rules speak for a property only inside the files that property is anchored in (properties.jsonl: anchors.files);
+    # a consumer elsewhere that a check happens to look at (call sites, file-handle protocols) is decided by its own property
+    anchor_files = None
+    try:
+        import json, os
+        here = os.path.dirname(os.path.dirname(os.path.dirname(os.path.abspath(__file__))))
+        for ln in open(os.path.join(here, "properties.jsonl"), "r", encoding="utf-8"):
+            d = json.loads(ln)
+            if d.get("id") == run.pid:
+                anchor_files = set(d.get("anchors", {}).get("files", [])) or None
+    except Exception:  # noqa
+        anchor_files = None
     if everything:
         funcs = pkg.all_functions()
     else:
@@ -874,7 +911,7 @@ def state_pass(run: Run, pkg: Package, everything: bool = False) -> None:
                 fi = pkg.func(fq)
             except Exception:  # noqa
                 continue
-            if fi.qual not in seen:
+            if fi.qual not in seen and (anchor_files is None or fi.relpath in anchor_files):
                 seen.add(fi.qual)
                 funcs.append(fi)
     if not everything:
